@@ -12,9 +12,11 @@
       * no task body runs twice; no unexpected exception out of any Team method / perform();
       * statistics: idle + busy == live workers (monitor), busy >= workers holding a task, all >= 0.
     At quiescence (every explored node is extended by a canonical drain of all queues):
-      * every task accepted by do() ran exactly once - unless no live worker is left at all (the
-        statement's "unless no worker could ever be created": the Team retries its backlog whenever
-        a worker is created or recycled, so an unrun task next to a live worker is a lost task);
+      * every task accepted by do() ran exactly once - unless no live worker is left at all AND the
+        Team never retired a worker while tasks were backlogged (the statement's "unless no worker
+        could ever be created": the Team serves its backlog whenever a worker is created or becomes
+        idle; a correct Team only quits workers while its backlog is empty, so an unrun task next to
+        a live worker, or after a worker was quit over a non-empty backlog, is a lost task);
       * logException ran once per raising task;
       * after quit(): every created worker was quit exactly once and the coordinator is quit.
 (b) stress of the real `ThreadPool` with real threads and E5 yield injection inside Team /
@@ -137,6 +139,9 @@ class W:
         self.quit_calls += 1
         if self.quit_calls > 1:
             self.world.bad("worker-quit-twice", "Team quit the same worker twice", worker=self.k)
+        # evidence for the quiescence oracle: was a worker retired while tasks were backlogged?
+        if self.world.team.statistics().backloggedWorkCount > 0:
+            self.world.retired_with_backlog.append(self.k)
         self.inner.quit()
 
     def performable(self):
@@ -175,6 +180,7 @@ class TeamWorld:
         self.logged = 0
         self.running_on = None
         self.dead = False
+        self.retired_with_backlog = []
         self.team = Team(self.coord, self.create_worker, self.log_exception)
         self._actions = self._state = None
 
@@ -247,7 +253,7 @@ class TeamWorld:
         self._actions = acts
         t = self.team
         self._state = (
-            self.limit, self.quit_called, self.probed, self.logged, tuple(sorted(self.budget.items())),
+            self.limit, self.quit_called, self.probed, self.logged, tuple(sorted(self.budget.items())), bool(self.retired_with_backlog),
             tuple((x.raises, x.runs, x.accepted) for x in self.tasks),
             tuple(sorted(x.slot for x in t._idle)), t._busyCount, tuple(_fp(p) for p in t._pending), t._toShrink,
             t._shouldQuitCoordinator, t._quit.isSet, self.coord._quit.isSet,
@@ -349,9 +355,12 @@ class TeamWorld:
                     # Legitimately stranded only if no worker is left at all: the Team retries its
                     # backlog whenever a worker is created or becomes idle, so an unrun task next to
                     # a live worker at quiescence is a lost task.
-                    if self.live() == 0:
+                    if self.live() == 0 and not self.retired_with_backlog:
                         stranded += 1
                         continue
+                    if self.retired_with_backlog:
+                        self.bad("task-stranded-by-worker-retirement", "a task accepted by Team.do() never ran: the Team retired a worker while the task was "
+                                 "backlogged instead of giving it the task (a worker existed / could be created)", task=t.i, retired=self.retired_with_backlog)
                     self.bad("task-never-ran", "a task accepted by Team.do() before quit() never ran although a live worker exists at quiescence", task=t.i)
             if stranded:
                 self.ctx.count("stranded_task_cases")
